@@ -144,11 +144,19 @@ fn run_case<G: AffineRepr>(env: &Env<G>, c: &Case) -> CaseOut {
 
     // ---- (4) freshness of the draws
     let (draws, ranges, bad) = draws_from_log::<G>(&po.log);
-    if bad {
-        o.inconclusive = Some("RNG stream replay out of step".into());
+    let need = draws_needed(n1, n2);
+    // independent of how the stream is chunked: every fresh scalar draw costs at least 31 bytes of
+    // transcript-RNG output (the scalar fields have 253..256 bits)
+    let rng_bytes: usize = po.log.iter().map(|e| if let Event::RngFill { out, .. } = e { out.len() } else { 0 }).sum();
+    o.count("transcript-rng-bytes-observed", rng_bytes as u64);
+    if rng_bytes < 31 * need {
+        o.violate("too-few-rng-bytes", format!("the prover drew {} bytes from its transcript-bound RNG; {} fresh scalar draws (n1={}, n2={}) need at least {}", rng_bytes, need, n1, n2, 31 * need), ctxj(json!({})));
         return o;
     }
-    let need = draws_needed(n1, n2);
+    if bad {
+        o.inconclusive = Some("RNG stream replay out of step (the stream is not consumed scalar by scalar)".into());
+        return o;
+    }
     o.count("rng-draws-observed", draws.len() as u64);
     if draws.len() < need {
         o.violate("too-few-draws", format!("{} scalar draws observed, the protocol needs {} independent ones for n1={}, n2={}", draws.len(), need, n1, n2), ctxj(json!({})));
